@@ -176,6 +176,16 @@ def r2(R, m):
         st = pyfacts.containing_stmt(c)
         R.check([src(x) for x in c.args[:3]] == ["i", "j", "labels"] and isinstance(st, ast.Assign) and st.value is c and len(st.targets) == 1 and isinstance(st.targets[0], ast.Name),
                 "C15.R2", REL, c.lineno, "find_ND_labels", "T = numbalabelNd(i, j, labels, ...)", "the tested count does not come from a sweep over the same edge list and label array")
+    # ... and "the same edge list" means the names still hold what the caller passed: a sweep over a shortened list ends with 0
+    # changes while dropped pairs disagree again after a later label change
+    rebound = sorted(set(x.id for x in ast.walk(fn) if isinstance(x, ast.Name) and isinstance(x.ctx, (ast.Store, ast.Del)) and x.id in ("i", "j")))
+    R.check(not rebound, "C15.R2", REL, fn.lineno, "find_ND_labels", "the edge arrays i, j are never rebound inside find_ND_labels",
+            "the edge list is replaced (%s rebound) between sweeps: a sweep that reports 0 changes over a reduced list does not certify that every "
+            "original pair agrees" % ", ".join(rebound))
+    lab_sets = [a_ for a_ in ast.walk(fn) if isinstance(a_, (ast.Assign, ast.AugAssign)) for t_ in (a_.targets if isinstance(a_, ast.Assign) else [a_.target])
+                if isinstance(t_, ast.Name) and t_.id == "labels"]
+    R.check(len(lab_sets) == 1, "C15.R2", REL, fn.lineno, "find_ND_labels", "labels is bound once (the identity start) and then only updated by the sweeps",
+            "the label array is replaced between sweeps")
     post_ = [s_ for s_ in ast.walk(fn) if isinstance(s_, ast.Assign) and isinstance(s_.value, ast.Call) and pyfacts.dotted(s_.value.func) == "get_clean_labels"]
     R.shape(len(post_) == 1, "C15.R2", REL, "find_ND_labels", "the get_clean_labels call")
     cfg = pyfacts.PyCFG(fn)
